@@ -9,6 +9,9 @@ Direct oracle (O), on the real classes only:
   * every value `set()` accepts — whatever the model says about it — has an E5 encoding, is encoded to it and decodes back;
   * a value given as CONSTRUCTOR argument (every leaf class, Dynamic, ANYVALUE, every data item class, Array, List; zero / empty
     values in particular) gives the same object as construction followed by `set()`, and is held and encoded;
+  * at every length limit (count-1, count, count+1; bytes, bytearray, str, lists/tuples of codes, ints by digit count, bools) each class's
+    `supports_value` agrees with its `set()`, and a limited Dynamic (text type before / after Binary, the limited data items) stores the
+    value in the first declared type that takes it;
   * `set()` replaces: a second `set()` (also field-wise through item / attribute assignment on a List, also with an empty array) leaves
     exactly the second value; a Dynamic / ANYVALUE / data item given two plain values of different kinds ends like a fresh object;
   * `encode_item_header` is format byte + minimal big-endian length bytes for every length 0..0xFFFFFF and refuses the rest.
@@ -319,6 +322,68 @@ def oracle_ctor_plain(res, label, mk, p):
         res.violate("ctor-drops-value", f"{label}({K.show_py(p)}) differs from {label}() followed by set({K.show_py(p)})", case, a[:200], b[:200])
 
 
+def consistent_domain(t, count, p):
+    """(class, count, value form) combinations on which `supports_value` and `set()` are meant to agree.  Left out, as the code
+    behaves on the unchanged tree: Boolean with count 0 (supports_value uses `0 < count`, set `0 <= count`), numeric classes given a
+    container (set() converts members with int()/float(), supports_value type-checks them) or a bytearray"""
+    k = p[0]
+    if t == "BOOLEAN" and count == 0:
+        return False
+    if t in K.NUMERIC and k in ("list", "tuple", "ba"):
+        return all(q[0] == "int" for q in p[1]) if k != "ba" else False
+    if t == "BOOLEAN" and k == "ba":
+        return False
+    return True
+
+
+def oracle_supports(res, t, count, p):
+    """`T(count).supports_value(p)` says what `T(count).set(p)` does (at the length limits in particular)"""
+    if not consistent_domain(t, count, p):
+        return
+    case = {"kind": "supports", "type": t, "count": count, "py": js(p)}
+    x = K.py_real(p)
+    try:
+        sup = bool(K.VARCLS[t](count=count).supports_value(x))
+    except Exception as exc:  # noqa: BLE001
+        res.violate("supports-value-inconsistent", f"supports_value raised {type(exc).__name__}: {exc}", case)
+        return
+    acc = K.accepts(K.VARCLS[t], count, x)
+    if sup != acc:
+        res.violate("supports-value-inconsistent", f"{t}(count={count}).supports_value says {sup} but set() {'accepts' if acc else 'refuses'} the value",
+                    case, acc, sup)
+
+
+def oracle_type_choice(res, tags, count, p):
+    """a Dynamic with a length limit stores a plain value in the first declared type that takes it (as the class's own set() decides),
+    and the bytes are those of that type"""
+    if any(not consistent_domain(g, count, p) for g in tags):
+        return
+    case = {"kind": "typechoice", "types": list(tags), "count": count, "py": js(p)}
+    classes = [K.VARCLS[g] for g in tags]
+    x = K.py_real(p)
+    want = K.reference_type(classes, count, x)
+    try:
+        d = V.Dynamic(list(classes), count=count)
+        d.set(x)
+        got, enc = type(d.value), d.encode()
+    except Exception as exc:  # noqa: BLE001
+        if want is not None:
+            res.violate("dynamic-type-choice", f"Dynamic({'/'.join(tags)}, count={count}) refuses a value its first fitting type {want.__name__} accepts: "
+                        f"{type(exc).__name__}", case, want.__name__, hlib.errkind(exc))
+        return
+    if want is None or got is not want:
+        res.violate("dynamic-type-choice", f"Dynamic({'/'.join(tags)}, count={count}) stores the value as {got.__name__}, the first declared type that "
+                    f"accepts it is {getattr(want, '__name__', None)}", case, getattr(want, "__name__", None), got.__name__)
+        return
+    ref = want(count=count)
+    ref.set(x)
+    if enc != ref.encode():
+        res.violate("dynamic-type-choice", "Dynamic encodes the value differently from the chosen type itself", case, ref.encode().hex()[:200], enc.hex()[:200])
+
+
+TYPE_LISTS = [("A", "B"), ("B", "A"), ("J", "B"), ("A", "U1", "B"), ("U1", "A"), ("A", "U4"), ("BOOLEAN", "U1", "A"), ("I2", "F4", "A", "B"), ("B",), ("A",), ("J", "A")]
+
+
 def oracle_accepted(res, t, count, p):
     """the property on ANY value the implementation accepts: T(count).set(p) succeeded -> the held value has an E5 encoding,
     encode() is that encoding, and it decodes back to the held value at the right position"""
@@ -394,6 +459,10 @@ def replay_case(res, case):
         mk = dict(ctor_makers()).get(case["obj"])
         if mk is not None:
             oracle_ctor_plain(res, case["obj"], mk, unjs_py(case["py"]))
+    elif k == "supports":
+        oracle_supports(res, case["type"], case["count"], unjs_py(case["py"]))
+    elif k == "typechoice":
+        oracle_type_choice(res, case["types"], case["count"], unjs_py(case["py"]))
     elif k == "settwice":
         oracle_set_twice(res, unjs(case["struct"]), unjs(case["v1"]), unjs(case["v2"]))
     elif k == "dynseq":
@@ -847,6 +916,30 @@ def main():
         oracle_set(res, "F4", [b])
     for b in [K.DBL_MAX64, K.SIGN | K.DBL_MAX64, 1, 0x0010000000000000]:
         oracle_set(res, "F8", [b])
+
+    # length limits: every supports_value helper against set(), and the type a limited Dynamic picks, at count-1 / count / count+1
+    import secsgem.secs.data_items as D
+    limits = sorted({1, 2, 3, 5} | {c.__count__ for n, c in vars(D).items() if isinstance(c, type) and issubclass(c, D.DataItemBase)
+                                   and c is not D.DataItemBase and getattr(c, "__type__", None) is V.Dynamic and c.__count__ > 0})
+    item_lists = sorted({(tuple(K.NAME_OF_VARCLS[t] for t in c.__allowedtypes__), c.__count__) for n, c in vars(D).items()
+                         if isinstance(c, type) and issubclass(c, D.DataItemBase) and c is not D.DataItemBase and getattr(c, "__type__", None) is V.Dynamic
+                         and c.__count__ > 0 and all(t in K.NAME_OF_VARCLS for t in (c.__allowedtypes__ or []))})
+    for count in limits + [0, -1]:
+        vals_b = K.boundary_values(max(count, 1))
+        for t in K.LEAVES:
+            for p in vals_b:
+                oracle_supports(res, t, count, p)
+                res.count(("supports", t, count, K.show_py(p)))
+        if count > 0:
+            for tags in TYPE_LISTS:
+                for p in vals_b:
+                    oracle_type_choice(res, tags, count, p)
+                    res.count(("typechoice", tags, count, K.show_py(p)))
+    for tags, count in item_lists:
+        for p in K.boundary_values(count):
+            oracle_type_choice(res, tags, count, p)
+            res.count(("typechoice", tags, count, K.show_py(p)))
+    res.bump("length_limits_probed", ",".join(str(c) for c in limits))
 
     # plain values (the falsy ones in particular) as CONSTRUCTOR argument of every leaf class, Dynamic, ANYVALUE and every data item class
     for label, mk in ctor_makers():
